@@ -19,7 +19,8 @@ for d in sorted(glob.glob(f"{V}/seeded/*/")):
     own = meta["property"] in caught
     needs = " ".join(meta.get("needs", "").split())[:230]
     ran = "all 20" if len(res) == 20 else (", ".join(sorted(res)) if res else "-")
-    rows.append(f"| {name} | {meta['property']} | {'yes' if own else ('**no** (by ' + ', '.join(caught) + ')' if caught else '**NOT CAUGHT**')} | {', '.join(c for c in caught if c != meta['property'])} | {ran} | {needs} |")
+    verdict = 'yes' if own else ('**no** (by ' + ', '.join(caught) + ')' if caught else ('**NOT CAUGHT**' if res else 'no result recorded here (caught / out of scope as summarised per round in DESIGN §12)'))
+    rows.append(f"| {name} | {meta['property']} | {verdict} | {', '.join(c for c in caught if c != meta['property'])} | {ran} | {needs} |")
 open(f"{V}/seeded/INDEX.md", "w").write(
     "# Independently seeded property-breaking changes\n\nEach was written by a fresh sub-agent that saw only the property text and a scratch worktree, passes the unedited "
     "suite (251 passed + the pre-existing failure), and comes with a demo that fails with the change and passes without it (confirmed by tools_seed.py).\n\n"
